@@ -50,25 +50,15 @@ def setup():
     fs = stubs.FS()
     SE.open = fs.open
     MF.open = fs.open
-    MF.getsize = fs.getsize
     PL.open = fs.open
     EN.open = fs.open
 
-    class PathProxy:
-        """pathlib stand-in for payloads.py / envelope.py: Path(x) / Path.is_file(Path(x)) answered by the in-memory file system."""
+    # library-level file-system entry points (pathlib's stat family, os.path.*, os.stat/lstat, os.open, shutil.copyfile, ...) are
+    # answered by the same in-memory file system: a change that reaches a file through another door than the seams above still
+    # sees the harness's files (and symbolic links)
+    from vlib import vfs
 
-        class Path:
-            def __init__(self, p):
-                self.p = p
-
-            def is_file(self):
-                return fs.exists(self.p)
-
-            def __str__(self):
-                return str(self.p)
-
-    PL.pathlib = PathProxy
-    EN.pathlib = PathProxy
+    vfs.install(fs)
 
     def uuid5(ns, name):
         if ns is None:
@@ -94,6 +84,7 @@ def reset(e):
     e.stubs.HashLog.reset()
     e.stubs.UuidProxy.LOG = []
     e.fs.names, e.fs.contents, e.fs.writes, e.fs.opened = [], [], [], []
+    e.fs.dirs, e.fs.removed = [], []
 
 
 def hexleaf(b):
